@@ -9,6 +9,8 @@ CLAIMS = {
 }
 CLAIMS['C17'] = dict(text='Bounded model checking with an inductive step for the list: one (and two) operations of the real htp_list_array_* from EVERY ring state of capacity 1..4 (thorough ..8) equal the abstract sequence and preserve the ring invariant, so histories of any length within that capacity are covered; table as ordered case-insensitive multimap (<=2-3 pairs); every bstr compare/search/prefix/edit primitive against a 5-line mathematical definition (all byte values, haystack <=4-6); number parsers against unsigned __int128 references up to 20 decimal / 17 hex digits (all digit strings around 2^31, 2^63, 2^64).',
              note='Capacities above 8, longer strings and allocation failure are outside; CBMC ctype models stand in for glibc tolower/isspace. One defect found here was repaired (fix: 756910b, replace at SIZE_MAX).', ref='DESIGN.md section 4 C17')
+CLAIMS['C12'] = dict(text='Bounded model checking, differential: the real htp_decode_path_inplace, htp_urldecode_inplace_ex (all three contexts), htp_utf8_decode_path_inplace / htp_utf8_validate_path and htp_normalize_uri_path_inplace are compared with independent reference models on every input of <= 4-7 bytes with EVERY decoder switch symbolic (output bytes, anomaly flags, expected status), plus never-longer, no-dot-segment and idempotence assertions. The solver quantifies over the whole configuration lattice at once, which enumeration by personality cannot.',
+             note='Reference models live in harness/C12 (decmodel.h, dotseg.c, utf8.c); the built-in best-fit table is replaced by a 4-entry map; paths longer than the bound are outside. Two defects found here were repaired (fix: 1a754d4 raw-NUL flag, d01edfc half/full-width range).', ref='DESIGN.md section 4 C12')
 NA_REASON = {}
 def main():
     props = [json.loads(l) for l in open(os.path.join(V, 'properties.jsonl'))]
